@@ -1,0 +1,7 @@
+//go:build !verif
+
+package db
+
+func verifWrite(db interface{}, kind string, key []byte, n int) {}
+
+func verifOpen(db interface{}, path string) {}
